@@ -313,6 +313,11 @@ def effects(symbols):
                 eff.append("run-sync" if s[2] == "(" + CTX_DESC + ")" else "other:run-sync(%s)" % s[2])
         elif k == "set-callback":
             eff.append("set(%s,%s)" % (s[1].lstrip("^"), s[2].split("{")[0]))
+        elif k in ("other-call", "assign", "closure", "await"):
+            # operations that do not involve any tracked variable of the job task (those are reported as unmodelled by abstract())
+            pass
+        elif k in ("cond", "iflet", "arm"):
+            pass  # a branch on something that is not job state: both outcomes are enumerated as separate paths with equal conditions
         else:
             eff.append("other:" + show(s))
         i += 1
